@@ -125,6 +125,13 @@ def paths_in(src):
     return out
 
 
+def ARG_NAMES(src):
+    try:
+        return {a.arg for n in ast.walk(ast.parse(src)) if isinstance(n, (ast.FunctionDef, ast.AsyncFunctionDef)) for a in n.args.args + n.args.kwonlyargs}
+    except SyntaxError:
+        return set()
+
+
 def wild_cases(rng, n):
     finds, rws = [], []
     for _ in range(n):
@@ -136,7 +143,13 @@ def wild_cases(rng, n):
         cands = paths_in(src)
         q = rng.choice(cands) if cands and rng.random() < 0.7 else c12mods.gen_search(rng)
         repl = c12mods.gen_repl(rng)
-        if rng.random() < 0.5 and q:
+        argp = [c for c in cands if len(c) >= 2 and c[-1] in ARG_NAMES(src)]
+        if argp and rng.random() < 0.3:
+            # sync_properties-style use: replace a parameter by an (annotated) assignment of the same / another name
+            q = rng.choice(argp)
+            nm = q[-1] if rng.random() < 0.8 else rng.choice(c12mods.POOL)
+            repl = rng.choice(["%s: int = 77\n", "%s: str\n", "%s: Optional[int] = None\n", "%s = 77\n", "%s = other = 5\n"]) % nm
+        elif rng.random() < 0.5 and q:
             # name the replacement after the last path component, as sync does
             head = repl.split("(")[0].split(":")[0].split("=")[0].split()
             if head:
@@ -788,7 +801,8 @@ def run(chk: core.Check) -> int:
             if "error" in i:
                 key = i["error"]
             else:
-                key = "replaced" if i["replaced"] else ("same" if i["module"] == pyast.module_to_json(c[0]) else "args-mutated")
+                key = ("node-replaced" if c[2].lstrip().startswith(("class ", "def ")) else "arg-replaced") if i["replaced"] else \
+                    ("same" if i["module"] == pyast.module_to_json(c[0]) else "default-changed-only")
             kinds_r[key] = kinds_r.get(key, 0) + 1
             chk.count(("rw", c[0], tuple(c[1]), c[2]), key != "same")
             if m.get("error") == "out-of-model":
